@@ -255,11 +255,15 @@ def run(ctx):
         key = (str(rho), step, order, nt, length, ncols, str(Ls[0]))
         # half of the time one long-lived Richardson object is re-configured through its public attributes instead of a new one
         reused = rng.random() < 0.5
+        # an integral ratio is passed as a Python int or a numpy integer half of the time (the type of a number is not part of its value)
+        rho_arg = rho
+        if not cplx and float(rho) == int(rho) and rng.random() < 0.5:
+            rho_arg = rng.choice([int(rho), np.int64(int(rho))])
         if reused:
             R = shared_R
-            R.step_ratio, R.step, R.order, R.num_terms = rho, step, order, nt
+            R.step_ratio, R.step, R.order, R.num_terms = rho_arg, step, order, nt
         else:
-            R = Richardson(step_ratio=rho, step=step, order=order, num_terms=nt)
+            R = Richardson(step_ratio=rho_arg, step=step, order=order, num_terms=nt)
         try:
             new, abserr, st = R(seq, steps)
             w = R.rule(length)
@@ -268,7 +272,7 @@ def run(ctx):
             ctx.violation('Richardson raised %r' % ex_, rho=str(rho), step=step, order=order, num_terms=nt, length=length)
             continue
         ctx.tried(key if used > 0 else None)
-        rep = dict(rho=str(rho), step=step, order=order, num_terms=nt, length=length, ncols=ncols,
+        rep = dict(rho=str(rho), rho_type=type(rho_arg).__name__, step=step, order=order, num_terms=nt, length=length, ncols=ncols,
                    L=[str(x) for x in Ls], a=[[str(x) for x in a] for a in As], h0=str(h0), object_reconfigured=reused)
         ctx.keep('Richardson', new, **rep)
         if not cplx and rng.random() < 0.25:
